@@ -40,7 +40,7 @@ RULE = ("a case = (phase, cause, destination kind, default source, data shape); 
 ASSUMPTIONS = ["'running' = the simulation task has started and no error/stop was requested yet "
                "(docs/simulation.rst: is_ready)"]
 
-PHASES = ['built', 'finalized', 'task-created', 'sync-init', 'async-init', 'running', 'abort-called',
+PHASES = ['built', 'finalized', 'aborted-before-start', 'task-created', 'sync-init', 'async-init', 'running', 'abort-called',
           'stopping-sync', 'stopping-async', 'finished', 'start-failed', 'reset']
 CAUSES = ['shutdown', 'abort-exc', 'handler-error', 'cancel-task', 'ctrl-shutdown', 'ctrl-abort',
           'calc-error', 'task-error']
@@ -54,6 +54,7 @@ SHAPES = [
     ((), {'source': '_EXT_x'}), ((7,), {'source': 'me', 'trigger': 't', 'previous': 1}),
     ((), {'source': '_ext'}), ((), {'source': '_extra'}), ((), {'source': '_ext-1'}),
     ((), {'source': '_ex'}), ((), {'source': '_'}), ((), {'source': ' _ext_x'}),
+    ((), {'etype': 'e1', 'data': 2}), ((3,), {'etype': None, 'data': {}}),
     ((), {'source': 5}), ((), {'source': None}), ((edzed.UNDEF,), {}), (('',), {'source': ' _ext_'}),
 ]
 CTOR_SOURCES = [None, 'abc', '_ext_abc', '', '_ext', '_extabc', '_ex']
@@ -294,6 +295,10 @@ def run_phase(cfg, acc):
             if phase == 'finalized':
                 circuit.finalize()
                 fire_all('circuit finalized explicitly, not started')
+            if phase == 'aborted-before-start':
+                circuit.abort(Fault('abort before the start'))
+                fire_all('abort() called, never started')
+                return
             task = asyncio.create_task(circuit.run_forever())
             if phase == 'task-created':
                 fire_all('task created, not yet running')
